@@ -2,6 +2,7 @@ package types
 
 import (
 	"github.com/goghcrow/yae/util"
+	"github.com/goghcrow/yae/verifhook"
 )
 
 // Unify 给出两个类型 A 和 B, 找到一组变量替换,
@@ -17,6 +18,7 @@ func Unify(s, t *Type, m map[string]*Type) *Type {
 }
 
 func unify(x, y *Type, m map[string]*Type, inProcess util.PtrPtrSet) *Type {
+	verifhook.Step("types.unify")
 	if x.IsComposite() && y.IsComposite() && inProcess.Contains(x, y) {
 		panic("not support recursive type")
 		// return nil
